@@ -457,3 +457,91 @@ def rowmajor_lemmas():
         out.append(prove('C02/LEMMA.rowmajor.%d' % nd, hy + [lin(d1) == lin(d2)], z3.And(*[p == q for p, q in zip(d1, d2)]),
                          func='vf/cvc.py::digits', timeout_ms=30000))
     return out
+
+
+# ---------------------------------------------------------------- lemmas for C03 / C04 over the contract of compute_abc_nobc
+def conservation_lemma():
+    """C04: with trapezoid weights w_k = 1/Delta_k the weighted column sums of the assembled operator vanish,
+         w_{j-1} c_{j-1} + w_j (b_j - 1/dt) + w_{j+1} a_{j+1} = 0     for every column j,
+    hence  sum_k w_k (A u)_k = sum_k w_k u_k / dt  for every u: a step changes trapezoid mass only through the absorbing terms."""
+    oid = 'C04/integration_shared.c:compute_abc_nobc/lemma.column-sums'
+    fn = CS.SHARED + '::compute_abc_nobc'
+    f = lambda n: z3.Function(n, IntS, RealS)
+    D, DF, DJ, M, V = (f(n) for n in ('dx', 'Delta', 'delj', 'M', 'V'))
+    dt, N, j = z3.Real('dt'), z3.Int('N'), z3.Int('j')
+    a, b, c, _, _ = CS.abc_closed(D, DF, DJ, M, V, dt, N)
+    w = lambda k: 1 / DF(k)
+    out = []
+    for case, cond in (('first', [j == 0, N >= 2]), ('interior', [j >= 1, j <= N - 2]), ('last', [j == N - 1, N >= 2])):
+        hy = cond + [dt != 0, D(j) != 0, D(j - 1) != 0, DF(j) != 0, DF(j - 1) != 0, DF(j + 1) != 0]
+        total = w(j) * (b(j) - 1 / dt) + ite(j >= 1, w(j - 1) * c(j - 1), z3.RealVal(0)) + ite(j <= N - 2, w(j + 1) * a(j + 1), z3.RealVal(0))
+        out.append(prove_eq('%s.%s' % (oid, case), hy, _resolve(total, hy), z3.RealVal(0), func=fn, timeout_ms=30000))
+    # canary: with the wrong weights (w_k = Delta_k) the sums do not vanish
+    hy = [j >= 1, j <= N - 2, dt != 0, D(j) != 0, D(j - 1) != 0, DF(j) != 0, DF(j - 1) != 0, DF(j + 1) != 0]
+    bad = DF(j) * (b(j) - 1 / dt) + DF(j - 1) * c(j - 1) + DF(j + 1) * a(j + 1)
+    out.append(prove(oid + '.canary', hy, _resolve(bad, hy) == 0, func=fn, canary=True, timeout_ms=20000))
+    return out
+
+
+def dfactor_weights_lemma():
+    """C04: Delta_k (compute_dfactor's contract) times the trapezoid weight w_k equals one at every node incl. both ends."""
+    oid = 'C04/integration_shared.c:compute_dfactor/lemma.trapezoid-weights'
+    fn = CS.SHARED + '::compute_dfactor'
+    ex = CExec([CS.SHARED])
+    st = State()
+    N = z3.Int('N')
+    st.env['dx'] = st.new_arr('dx', length=N - 1)
+    st.env['dfactor'] = st.new_arr('dfactor', length=N)
+    CS.c_compute_dfactor(ex, st, [st.env['dx'], N, st.env['dfactor']])
+    DF, D = CS.rd(st, st.env['dfactor']), CS.rd(st, st.env['dx'])
+    k = z3.Int('k')
+    out = []
+    for case, cond, wk in (('first', [k == 0], D(0) / 2), ('interior', [k >= 1, k <= N - 2], (D(k) + D(k - 1)) / 2), ('last', [k == N - 1], D(N - 2) / 2)):
+        hy = cond + [N >= 2, D(k) > 0, D(k - 1) > 0, D(0) > 0, D(N - 2) > 0]
+        out.append(prove_eq('%s.%s' % (oid, case), hy, _resolve(DF(k), hy) * wk, z3.RealVal(1), func=fn, timeout_ms=20000))
+    return out
+
+
+def scaling_lemmas():
+    """C03: re-expressing a step relative to another reference size c (sizes, dt times c; rates divided by c) divides the whole
+    linear system by c: V(x; c nu) = V/c, M(x; m/c, gamma/c, h) = M/c, delj unchanged, (a,b,c)(M/c, V/c, c dt) = (a,b,c)/c."""
+    oid = 'C03/integration_shared.c'
+    out = []
+    f = lambda n: z3.Function(n, IntS, RealS)
+    D, DF, DJ, M, V = (f(n) for n in ('dx', 'Delta', 'delj', 'M', 'V'))
+    dt, N, k, c = z3.Real('dt'), z3.Int('N'), z3.Int('k'), z3.Real('c')
+    a0, b0, c0, _, _ = CS.abc_closed(D, DF, DJ, M, V, dt, N)
+    a1, b1, c1, _, _ = CS.abc_closed(D, DF, DJ, lambda q: M(q) / c, lambda q: V(q) / c, c * dt, N)
+    fn = CS.SHARED + '::compute_abc_nobc'
+    for nm, x0, x1 in (('a', a0, a1), ('b', b0, b1), ('c', c0, c1)):
+        for case, cond in (('first', [k == 0, N >= 2]), ('interior', [k >= 1, k <= N - 2]), ('last', [k == N - 1, N >= 2])):
+            hy = cond + [c != 0, dt != 0, D(k) != 0, D(k - 1) != 0]
+            out.append(prove_eq('%s:compute_abc_nobc/lemma.rescale.%s.%s' % (oid, nm, case), hy, _resolve(x1(k), hy), _resolve(x0(k), hy) / c, func=fn, timeout_ms=30000))
+    # delj invariant
+    Mk, Vk, Dk = z3.Reals('M V D')
+    hy = [c != 0, Vk != 0]
+    lhs, rhs = CS.delj_value(Mk / c, Vk / c, Dk), CS.delj_value(Mk, Vk, Dk)
+    # the two exp arguments are equal as rational functions: add the congruence instance, then split on the (now identical) guard
+    from vf.helpers import _congruence_lemmas
+    lem = _congruence_lemmas(hy, lhs, rhs)
+    e = CS.uf('exp')(2 * Mk * Dk / Vk)
+    for case, cond in (('regular', [e != 1, 2 * Mk * Dk != 0]), ('degenerate', [z3.Or(e == 1, 2 * Mk * Dk == 0)])):
+        h2 = hy + lem + cond
+        out.append(prove_eq('%s:compute_delj/lemma.rescale-invariant.%s' % (oid, case), h2, _resolve(lhs, h2), _resolve(rhs, h2), func=CS.SHARED + '::compute_delj', timeout_ms=30000))
+    # V and M from the real C functions
+    ex = CExec([CS.SHARED])
+    x, nu, beta, g, h = z3.Reals('x nu beta gamma h')
+    ys = z3.Reals('y z a b')
+    ms = z3.Reals('m1 m2 m3 m4')
+    for name, args, sargs in (('Vfunc', [x, nu], [x, c * nu]), ('Vfunc_beta', [x, nu, beta], [x, c * nu, beta])):
+        fd = ex.funcs[name][1]
+        v0, v1 = ex.inline_scalar(fd, args), ex.inline_scalar(fd, sargs)
+        out.append(prove_eq('%s:%s/lemma.rescale' % (oid, name), [c != 0, nu != 0, beta != 0], v1, v0 / c, func=CS.SHARED + '::' + name, timeout_ms=20000))
+    for K in range(1, 6):
+        name = 'Mfunc%dD' % K
+        fd = ex.funcs[name][1]
+        o, m = list(ys[:K - 1]), list(ms[:K - 1])
+        v0 = ex.inline_scalar(fd, [x] + o + m + [g, h])
+        v1 = ex.inline_scalar(fd, [x] + o + [mi / c for mi in m] + [g / c, h])
+        out.append(prove_eq('%s:%s/lemma.rescale' % (oid, name), [c != 0], v1, v0 / c, func=CS.SHARED + '::' + name, timeout_ms=20000))
+    return out
